@@ -46,6 +46,11 @@ def channels(tier):
     for mode, lname in (("gapped", "blocks+gaps"), ("cont", "contiguous_multi_file"), ("gapped", "contiguous_multi_file")):
         k0 = U.start_positions(10, 3, 1000, 2, U.EPOCHS[1:2])[1][0]
         out.append((dict(c01._cfg(10, 3, 1000, 2, k0, mode)), layouts[lname], "SPLITDIRS 10/3 %s %s" % (mode, lname)))
+    # recordings that begin at the very first index of the epoch (index 0 is a sample like any other); in continuous
+    # mode a start inside the first file period is padded back to index 0
+    out.append((dict(c01._cfg(10, 3, 1000, 2, 0, "gapped")), layouts["contiguous_multi_file"], "10/3 gapped start_index_0"))
+    out.append((dict(c01._cfg(10, 3, 1000, 2, 2, "cont")), layouts["blocks+gaps"], "10/3 cont start_in_first_file_period"))
+    out.append((dict(c01._cfg(10, 3, 1000, 2, 0, "gapped")), layouts["contiguous_multi_file"], "SPLITDIRS ZEROFIRST 10/3 gapped start_index_0"))
     # 26-27 samples per file: files that start with missing samples and hold three or four blocks (queries
     # ending in the empty head of such a file, or early in its first block)
     n, d, fc, sc = 200, 3, 400, 2
@@ -136,7 +141,7 @@ def run_channel(item):
                 if i % 2 == 1:
                     os.makedirs(os.path.join(top2, ch, os.path.dirname(rel)), exist_ok=True)
                     os.rename(os.path.join(run.chdir, rel), os.path.join(top2, ch, rel))
-            tops = [top2, top]
+            tops = [top2, top] if "ZEROFIRST" not in label else [top, top2]
         reader = drf.DigitalRFReader(tops)
         ex = model.exposed(cfg)
         edges = rfrun.edge_set(model, cfg, band=3, limit=(64 if "many_blocks" in label else 28))
@@ -359,6 +364,37 @@ def run_channel(item):
                 r4.close()
             finally:
                 os.chdir(cwd)
+        # --- a data file expires (ring buffer, mirror in move mode) while a reader that has just used it stays open:
+        #     from then on every query answers as if the file had never been there
+        if not isinstance(tops, list):
+            import copy
+
+            fms = sorted({rf.file_ms(k, cfg["n"], cfg["d"], cfg["fc"]) for k in model.written})
+            for victim_ms in ([fms[0], fms[-1]] if len(fms) > 1 else []):
+                k_in = min(k for k in model.written if rf.file_ms(k, cfg["n"], cfg["d"], cfg["fc"]) == victim_ms)
+                vpath = os.path.join(run.chdir, rf.file_relpath(k_in, cfg))
+                r6 = drf.DigitalRFReader(top)
+                r6.read(k_in, k_in, ch)  # the reader's open-file cache now holds the victim
+                os.rename(vpath, vpath + ".expired")
+                try:
+                    m2 = copy.deepcopy(model)
+                    for k in list(m2.written):
+                        if rf.file_ms(k, cfg["n"], cfg["d"], cfg["fc"]) == victim_ms:
+                            del m2.written[k]
+                    ex2 = m2.exposed(cfg)
+                    part["evaluations"] += 3
+                    got6 = rf.read_runs(r6, ch, lo, hi)
+                    err6 = rf.compare_runs(cfg, got6, m2.runs(lo, hi, cfg))
+                    b6 = tuple(r6.get_bounds(ch))
+                    blocks6 = [(int(k), int(v)) for k, v in r6.get_continuous_blocks(lo, hi, ch).items()]
+                    if err6 or b6 != (min(ex2), max(ex2)) or blocks6 != [(k, len(v)) for k, v in got6]:
+                        bad({"class": "expired_file_still_served"}, "file of %d removed while the reader had it open: read %s; bounds %r expected %r; blocks %s" % (
+                            k_in, err6, b6, (min(ex2), max(ex2)), blocks6), query=[lo, hi])
+                except Exception as e:  # noqa: BLE001
+                    bad({"class": "reader_raised_after_file_expired", "exc": type(e).__name__}, repr(e))
+                finally:
+                    os.rename(vpath + ".expired", vpath)
+                    r6.close()
         reader.close()
         # --- the same channel described by the older drf_properties.h5 layout the reader still accepts (no
         #     numerator/denominator, a samples_per_second value only), for rates that this value determines
